@@ -17,6 +17,9 @@ auxiliary clauses that make them inductive) are preserved by every function of t
 * `PresAll f`  — the conjunction, at fuel `f`, of one preservation statement per function of the
                  mutual block; `presAll : ∀ f, PresAll f` is the induction on fuel.
 
+* Part II: `XInv` (extra clauses), `Safe`, `SafeAll f`, `safeAll : ∀ f, SafeAll f` — no function of the
+                 mutual block fails with `Panic.unwrapNone` (C11).
+
 The readable statements are in `SycVerif.Props.ReactiveWF`.  (`Inv` is a class of core Lean, hence
 the name `RInv`.)
 -/
@@ -1393,5 +1396,1350 @@ theorem runOps_pres (fuel : Nat) : ∀ (ops : List Stmt) (r : Root) (env : List 
 /-- the readable part of the invariant -/
 theorem RInv.ownershipOk {r : Root} (h : RInv r) : OwnershipOk r :=
   { h.tree with listed := fun j m p np hm hp hnp => (h.listed j m p np hm hp hnp).elim (fun x => x) False.elim }
+
+/-! ## Part II (C11): no `Option::unwrap()` on `None`
+
+`runNodeUpdate` is the only function of the model that can fail with `Panic.unwrapNone` (the two
+`unwrap()`s of `run_node_update` on `callback` and `value`).  It never does: on states that satisfy
+`RInvP` and the clauses `XInv` below, no function of the mutual block returns `.error .unwrapNone`,
+and `XInv` is preserved.  The extra clauses say that signals/scopes (no callback) are never dirty and
+have no dependencies, that a computation at rest has a value, and that the batch queue is only used
+inside a batch and only holds nodes that have a value (i.e. that are not running). -/
+
+/-- per-node clauses -/
+structure XNode (n : Node) : Prop where
+  /-- a signal or scope is never dirty -/
+  a : n.callback = none → n.value ≠ none → n.dirty = false
+  /-- only computations have dependencies -/
+  b : n.callback = none → n.dependencies = []
+  /-- a computation at rest has a value (`callback` and `value` are taken out together) -/
+  c : n.callback ≠ none → n.value ≠ none
+
+structure XInv (r : Root) : Prop where
+  node : ∀ i n, r.get? i = some n → XNode n
+  /-- the queue is only used inside a batch -/
+  q1 : r.batching = false → r.queue = []
+  /-- queued nodes are not running -/
+  q2 : ∀ q ∈ r.queue, ∀ n, r.get? q = some n → n.value ≠ none
+  q3 : ∀ q ∈ r.queue, q < r.nodes.size
+
+/-- two-state facts: the batch flag is restored; a node that is not running is not running
+afterwards -/
+def Keep (r r' : Root) : Prop :=
+  ∀ j n n', r.get? j = some n → n.value ≠ none → r'.get? j = some n' → n'.value ≠ none
+
+structure XStep (r r' : Root) : Prop where
+  batching : r'.batching = r.batching
+  keep : Keep r r'
+
+/-- the arena keeps its size, queue and batch flag, and every surviving node keeps its value -/
+structure SameVals (r r' : Root) : Prop where
+  size : r'.nodes.size = r.nodes.size
+  queue : r'.queue = r.queue
+  batching : r'.batching = r.batching
+  back : ∀ j m', r'.get? j = some m' → ∃ m, r.get? j = some m ∧ m'.value = m.value
+
+/-- the result is not the panic `unwrapNone`, and satisfies `post` if it is a value -/
+abbrev Safe {α : Type} (x : Except Panic α) (post : α → Prop) : Prop :=
+  match x with
+  | .ok a => post a
+  | .error e => e ≠ .unwrapNone
+
+abbrev XPost (r r' : Root) : Prop := XInv r' ∧ XStep r r'
+
+theorem Safe.mono {α : Type} {x : Except Panic α} {p q : α → Prop} (h : Safe x p)
+    (hpq : ∀ a, x = .ok a → p a → q a) : Safe x q := by
+  cases x with
+  | error e => exact h
+  | ok a => exact hpq a rfl h
+
+theorem XStep.refl (r : Root) : XStep r r :=
+  ⟨rfl, fun j n n' h hv h' => by rw [h] at h'; cases h'; exact hv⟩
+
+theorem Keep.trans {a b c : Root} (h1 : Keep a b) (g1 : Grows a b) (g2 : Grows b c) (h2 : Keep b c) :
+    Keep a c := by
+  intro j n n' hn hv hn'
+  cases hb : b.get? j with
+  | none =>
+    have := g2.dead j (Nat.lt_of_lt_of_le (Root.lt_size_of_get? hn) g1.size) hb
+    rw [this] at hn'; cases hn'
+  | some nb => exact h2 j nb n' hb (h1 j n nb hn hv hb) hn'
+
+theorem XStep.trans {a b c : Root} (h1 : XStep a b) (g1 : Grows a b) (g2 : Grows b c) (h2 : XStep b c) :
+    XStep a c :=
+  ⟨h2.batching.trans h1.batching, h1.keep.trans g1 g2 h2.keep⟩
+
+theorem XPost.trans {a b c : Root} (h1 : XPost a b) (g1 : Grows a b) (g2 : Grows b c) (h2 : XPost b c) :
+    XPost a c := ⟨h2.1, h1.2.trans g1 g2 h2.2⟩
+
+theorem SameVals.refl (r : Root) : SameVals r r := ⟨rfl, rfl, rfl, fun _ m h => ⟨m, h, rfl⟩⟩
+
+theorem SameVals.trans {a b c : Root} (h1 : SameVals a b) (h2 : SameVals b c) : SameVals a c := by
+  refine ⟨h2.size.trans h1.size, h2.queue.trans h1.queue, h2.batching.trans h1.batching, ?_⟩
+  intro j m' hm'
+  obtain ⟨m1, hm1, e1⟩ := h2.back j m' hm'
+  obtain ⟨m0, hm0, e0⟩ := h1.back j m1 hm1
+  exact ⟨m0, hm0, e1.trans e0⟩
+
+theorem SameVals.xstep {r r' : Root} (h : SameVals r r') : XStep r r' := by
+  refine ⟨h.batching, ?_⟩
+  intro j n n' hn hv hn'
+  obtain ⟨m, hm, e⟩ := h.back j n' hn'
+  rw [hn] at hm; cases hm; rw [e]; exact hv
+
+/-! ### errors of the functions without user code -/
+
+theorem lookup_safe {c : Ctx} {h : Nat} {e : Panic} (hx : lookup c h = .error e) : e ≠ .unwrapNone := by
+  unfold lookup at hx
+  split at hx <;> (cases hx <;> (intro h; cases h))
+
+theorem createNode_safe {r : Root} {v : Option Int} {e : Panic} (hx : createNode r v = .error e) :
+    e ≠ .unwrapNone := by
+  rw [createNode_eq] at hx
+  split at hx
+  · cases hx
+  · split at hx <;> (cases hx <;> (intro h; cases h))
+
+theorem getUntracked_safe {r : Root} {id : Id} {e : Panic} (hx : getUntracked r id = .error e) :
+    e ≠ .unwrapNone := by
+  unfold getUntracked at hx
+  split at hx
+  · cases hx; intro h; cases h
+  · split at hx <;> (cases hx <;> (intro h; cases h))
+
+theorem setSilent_safe {r : Root} {id : Id} {v : Int} {e : Panic} (hx : setSilent r id v = .error e) :
+    e ≠ .unwrapNone := by
+  unfold setSilent at hx
+  split at hx
+  · cases hx; intro h; cases h
+  · split at hx <;> (cases hx <;> (intro h; cases h))
+
+theorem provideContext_safe {r : Root} {ty : Nat} {v : Int} {e : Panic}
+    (hx : provideContext r ty v = .error e) : e ≠ .unwrapNone := by
+  unfold provideContext at hx
+  split at hx
+  · cases hx; intro h; cases h
+  · split at hx
+    · cases hx; intro h; cases h
+    · split at hx <;> (cases hx <;> (intro h; cases h))
+
+theorem ctxWalk_safe : ∀ (fuel : Nat) (r : Root) (n : Node) (ty : Nat) (e : Panic),
+    ctxWalk fuel r n ty = .error e → e ≠ .unwrapNone
+  | 0, _, _, _, e, hx => by simp only [ctxWalk] at hx; cases hx; intro h; cases h
+  | fuel + 1, r, n, ty, e, hx => by
+    simp only [ctxWalk] at hx
+    split at hx
+    · cases hx
+    · split at hx
+      · cases hx
+      · split at hx
+        · cases hx; intro h; cases h
+        · exact ctxWalk_safe fuel r _ ty e hx
+
+theorem tryUseContext_safe {r : Root} {ty : Nat} {e : Panic} (hx : tryUseContext r ty = .error e) :
+    e ≠ .unwrapNone := by
+  unfold tryUseContext at hx
+  split at hx
+  · cases hx; intro h; cases h
+  · split at hx
+    · cases hx; intro h; cases h
+    · exact ctxWalk_safe _ _ _ _ _ hx
+
+theorem trackAll_safe (c : Ctx) (l : List Nat) {r : Root} {e : Panic} (hx : trackAll c r l = .error e) :
+    e ≠ .unwrapNone := by
+  induction l generalizing r with
+  | nil => simp only [trackAll] at hx; cases hx
+  | cons x l ih =>
+    simp only [trackAll] at hx
+    split at hx
+    · rename_i e' he; cases hx; exact lookup_safe he
+    · split at hx
+      · cases hx; intro h; cases h
+      · exact ih hx
+
+theorem visitStarts_safe (ss : List Id) {r : Root} {buf : List Id} {e : Panic}
+    (hx : visitStarts r buf ss = .error e) : e ≠ .unwrapNone := by
+  induction ss generalizing r buf with
+  | nil => simp only [visitStarts] at hx; cases hx
+  | cons s ss ih =>
+    simp only [visitStarts] at hx
+    split at hx
+    · cases hx; intro h; cases h
+    · exact ih hx
+
+/-! ### `XInv` under the arena transformers -/
+
+theorem XInv.same {r r' : Root} (h : XInv r) (hn : r'.nodes = r.nodes) (hq : r'.queue = r.queue)
+    (hb : r'.batching = r.batching) : XInv r' ∧ XStep r r' ∧ SameVals r r' := by
+  have hg := Root.get?_congr_nodes hn
+  have sv : SameVals r r' := ⟨by rw [hn], hq, hb, fun j m' hm' => ⟨m', by rw [← hg]; exact hm', rfl⟩⟩
+  refine ⟨⟨?_, ?_, ?_, ?_⟩, sv.xstep, sv⟩
+  · intro i n hi; rw [hg] at hi; exact h.node i n hi
+  · intro hb'; rw [hq]; exact h.q1 (hb ▸ hb')
+  · intro q hq' n hn'; rw [hg] at hn'; rw [hq] at hq'; exact h.q2 q hq' n hn'
+  · intro q hq'; rw [hq] at hq'; rw [hn]; exact h.q3 q hq'
+
+/-- node-wise transformation that keeps sizes, queue, batch flag and all values -/
+theorem XInv.pointwise {r r' : Root} (h : XInv r) (hsz : r'.nodes.size = r.nodes.size)
+    (hq : r'.queue = r.queue) (hb : r'.batching = r.batching)
+    (hback : ∀ j m', r'.get? j = some m' → ∃ m, r.get? j = some m ∧ m'.value = m.value ∧ (XNode m → XNode m')) :
+    XInv r' ∧ XStep r r' ∧ SameVals r r' := by
+  have sv : SameVals r r' := ⟨hsz, hq, hb, fun j m' hm' => by
+    obtain ⟨m, hm, e, _⟩ := hback j m' hm'; exact ⟨m, hm, e⟩⟩
+  refine ⟨⟨?_, ?_, ?_, ?_⟩, sv.xstep, sv⟩
+  · intro i n' hi
+    obtain ⟨m, hm, _, hx⟩ := hback i n' hi
+    exact hx (h.node i m hm)
+  · intro hb'; rw [hq]; exact h.q1 (hb ▸ hb')
+  · intro q hq' n' hn'
+    obtain ⟨m, hm, e, _⟩ := hback q n' hn'
+    rw [hq] at hq'; rw [e]; exact h.q2 q hq' m hm
+  · intro q hq'; rw [hq] at hq'; rw [hsz]; exact h.q3 q hq'
+
+theorem XInv.setNode {r : Root} {id : Id} {n n' : Node} (h : XInv r) (hn : r.get? id = some n)
+    (hv : n'.value = n.value) (hx : XNode n → XNode n') :
+    XInv (r.setNode id n') ∧ XStep r (r.setNode id n') ∧ SameVals r (r.setNode id n') := by
+  obtain ⟨s1, _, _, _, s5, s6, _⟩ := SameFrame.setNode r id n'
+  refine h.pointwise s1 s5 s6 ?_
+  intro j m' hm'
+  rw [Root.get?_setNode] at hm'
+  split at hm'
+  · rename_i hc; cases hm'; rw [hc.1]; exact ⟨n, hn, hv, hx⟩
+  · exact ⟨m', hm', rfl, fun x => x⟩
+
+theorem XInv.removed {r r' : Root} {S : List Id} (h : XInv r) (hrem : Removed r S r')
+    (hsz : r'.nodes.size = r.nodes.size) (hq : r'.queue = r.queue) (hb : r'.batching = r.batching) :
+    XInv r' ∧ XStep r r' ∧ SameVals r r' := by
+  refine h.pointwise hsz hq hb ?_
+  intro j m' hm'
+  obtain ⟨_, m, hm, rfl⟩ := hrem.get?_some hm'
+  refine ⟨m, hm, rfl, fun x => ⟨x.a, fun hc => ?_, x.c⟩⟩
+  simp [eraseIds, x.b hc]
+
+theorem XInv.removeNode {P : Id → Prop} {r : Root} (hI : RInvP P r) (h : XInv r) (id : Id) :
+    XInv (removeNode r id) ∧ XStep r (removeNode r id) := by
+  obtain ⟨_, _, _, _, ⟨s1, _, _, _, s5, s6, _⟩, _⟩ := removeNode_spec hI.nd hI.sym id
+  obtain ⟨a, b, _⟩ := h.removed (removeNode_removed hI.nd hI.sym id) s1 s5 s6
+  exact ⟨a, b⟩
+
+theorem XInv.createNode {r r' : Root} {v : Option Int} {id : Id}
+    (h : XInv r) (hc : createNode r v = .ok (r', id)) : XInv r' ∧ XStep r r' := by
+  obtain ⟨hid, hget, hsz, _, _, _, hq, hb, _⟩ := createNode_get? hc
+  subst hid
+  have back : ∀ j m', r'.get? j = some m' →
+      (j = r.nodes.size ∧ m'.callback = none ∧ m'.dependencies = [] ∧ m'.dirty = false) ∨
+      (∃ m, r.get? j = some m ∧ m'.value = m.value ∧ m'.callback = m.callback ∧
+        m'.dependencies = m.dependencies ∧ m'.dirty = m.dirty) := by
+    intro j m' hm'
+    rw [hget] at hm'
+    by_cases hj : j = r.nodes.size
+    · left
+      rw [if_pos hj] at hm'
+      simp only [Option.map_some, Option.some.injEq] at hm'
+      subst hm'
+      exact ⟨hj, rfl, rfl, rfl⟩
+    · right
+      rw [if_neg hj, Option.map_eq_some_iff] at hm'
+      obtain ⟨m, hm, rfl⟩ := hm'
+      exact ⟨m, hm, rfl, rfl, rfl, rfl⟩
+  refine ⟨⟨?_, ?_, ?_, ?_⟩, hb, ?_⟩
+  · intro i n' hi
+    rcases back i n' hi with ⟨_, e1, e2, e3⟩ | ⟨m, hm, e1, e2, e3, e4⟩
+    · exact ⟨fun _ _ => e3, fun _ => e2, fun hc => absurd e1 hc⟩
+    · have x := h.node i m hm
+      exact ⟨fun hc hv => by rw [e4]; exact x.a (e2 ▸ hc) (e1 ▸ hv), fun hc => by rw [e3]; exact x.b (e2 ▸ hc),
+        fun hc => by rw [e1]; exact x.c (e2 ▸ hc)⟩
+  · intro hb'; rw [hq]; exact h.q1 (hb ▸ hb')
+  · intro q hq' n' hn'
+    rw [hq] at hq'
+    rcases back q n' hn' with ⟨e, _⟩ | ⟨m, hm, e1, _⟩
+    · exact absurd (h.q3 q hq') (by rw [e]; exact Nat.lt_irrefl _)
+    · rw [e1]; exact h.q2 q hq' m hm
+  · intro q hq'; rw [hq] at hq'; rw [hsz]; exact Nat.lt_succ_of_lt (h.q3 q hq')
+  · intro j n n' hn hv hn'
+    rcases back j n' hn' with ⟨e, _⟩ | ⟨m, hm, e1, _⟩
+    · exact absurd (Root.lt_size_of_get? hn) (by rw [e]; exact Nat.lt_irrefl _)
+    · rw [hn] at hm; cases hm; rw [e1]; exact hv
+
+theorem XInv.unlink {P : Id → Prop} {r r2 : Root} {cur : Id} {n : Node} (hI : RInvP P r) (h : XInv r)
+    (hn : r.get? cur = some n)
+    (hu : unlink cur (r.setNode cur { n with dependencies := [] }) n.dependencies = .ok r2) :
+    XInv r2 ∧ XStep r r2 ∧ SameVals r r2 := by
+  obtain ⟨r2', hu', hget, _, _, _, _, ⟨s1, _, _, _, s5, s6, _⟩⟩ := unlink_spec hI.nd hI.sym hn
+  rw [hu] at hu'; cases hu'
+  refine h.pointwise s1 s5 s6 ?_
+  intro j m' hm'
+  rw [hget, Option.map_eq_some_iff] at hm'
+  obtain ⟨m, hm, rfl⟩ := hm'
+  refine ⟨m, hm, rfl, fun x => ⟨x.a, fun hc => ?_, x.c⟩⟩
+  simp only [unlinked]; split
+  · rfl
+  · exact x.b hc
+
+/-- a live node that occurs in some `dependents` list has dependencies, hence a callback and a value -/
+def IsDep (r : Root) (i : Id) : Prop := ∃ a n, r.get? a = some n ∧ i ∈ n.dependents
+
+theorem IsDep.facts {P : Id → Prop} {r : Root} {i : Id} (hI : RInvP P r) (hd : IsDep r i) :
+    r.alive i = true ∧ ∀ ni, r.get? i = some ni → ni.dependencies ≠ [] ∧ ni.value ≠ none := by
+  obtain ⟨a, na, hna, hi⟩ := hd
+  refine ⟨(hI.nd a na hna).1 i hi, ?_⟩
+  intro ni hni
+  have hc : 0 < ni.dependencies.count a := by
+    rw [← hI.sym a i na ni hna hni]; exact List.count_pos_iff.2 hi
+  have hne : ni.dependencies ≠ [] := by
+    intro e; rw [e] at hc; simp at hc
+  exact ⟨hne, fun hv => hne ((hI.node i ni hni).run hv)⟩
+
+theorem XInv.markDirty {P : Id → Prop} {r : Root} (hI : RInvP P r) (h : XInv r) (cur : Id) :
+    XInv (markDependentsDirty r cur) ∧ XStep r (markDependentsDirty r cur) ∧
+    SameVals r (markDependentsDirty r cur) := by
+  obtain ⟨_, _, _, ⟨s1, _, _, _, s5, s6, _⟩⟩ := markDependentsDirty_frame r cur
+  refine h.pointwise s1 s5 s6 ?_
+  intro j m' hm'
+  rw [markDependentsDirty_get?, Option.map_eq_some_iff] at hm'
+  obtain ⟨m, hm, rfl⟩ := hm'
+  refine ⟨m, hm, rfl, fun x => ⟨fun hc hv => ?_, x.b, x.c⟩⟩
+  have hd : isDependentOf r cur j = false := by
+    cases hdep : isDependentOf r cur j with
+    | false => rfl
+    | true =>
+      exfalso
+      unfold isDependentOf at hdep
+      split at hdep
+      · rename_i nc hnc
+        have : IsDep r j := ⟨cur, nc, hnc, by simpa using hdep⟩
+        exact (this.facts hI).2 m hm |>.1 (x.b hc)
+      · cases hdep
+  simp only [hd, Bool.or_false]
+  exact x.a hc hv
+
+theorem XInv.dfs {fuel : Nat} {r r' : Root} {buf buf' : List Id} {s : Id} (h : XInv r)
+    (hx : dfs fuel r buf s = some (r', buf')) : XInv r' ∧ XStep r r' ∧ SameVals r r' := by
+  obtain ⟨hsz, hnode, ⟨_, _, _, hq, hb, _⟩, _⟩ := dfs_frame hx
+  refine h.pointwise hsz hq hb ?_
+  intro j m' hm'
+  have := hnode j; rw [hm'] at this
+  obtain ⟨m, hm, e⟩ := sameButMark_some_left.1 this
+  have := sameButMark_some_iff.1 (show SameButMark (some m') (some m) from congrArg some e)
+  obtain ⟨a1, a2, _, _, _, a6, _, _, a9⟩ := this
+  exact ⟨m, hm, a1, fun x => ⟨fun hc hv => by rw [a9]; exact x.a (a2 ▸ hc) (a1 ▸ hv),
+    fun hc => by rw [a6]; exact x.b (a2 ▸ hc), fun hc => by rw [a1]; exact x.c (a2 ▸ hc)⟩⟩
+
+theorem XInv.visitStarts {P : Id → Prop} (ss : List Id) {r r' : Root} {buf buf' : List Id}
+    (hI : RInvP P r) (h : XInv r) (hx : visitStarts r buf ss = .ok (r', buf')) :
+    XInv r' ∧ XStep r r' ∧ SameVals r r' := by
+  induction ss generalizing r buf with
+  | nil =>
+    simp only [Reactive.visitStarts, Except.ok.injEq, Prod.mk.injEq] at hx
+    obtain ⟨rfl, _⟩ := hx
+    exact ⟨h, XStep.refl _, SameVals.refl _⟩
+  | cons s ss ih =>
+    simp only [Reactive.visitStarts] at hx
+    split at hx
+    · cases hx
+    · rename_i r1 buf1 h1
+      obtain ⟨i1, _⟩ := hI.dfs h1
+      obtain ⟨x1, _, v1⟩ := h.dfs h1
+      obtain ⟨i2, _⟩ := i1.markDirty s
+      obtain ⟨x2, _, v2⟩ := x1.markDirty i1 s
+      obtain ⟨x3, _, v3⟩ := ih i2 x2 hx
+      have v := (v1.trans v2).trans v3
+      exact ⟨x3, v.xstep, v⟩
+
+/-! ### what the search pushes -/
+
+theorem IsDep.bwd {r r' : Root} {i : Id} (h : ∀ j, SameButMark (r'.get? j) (r.get? j)) (hd : IsDep r' i) :
+    IsDep r i := by
+  obtain ⟨a, n', hn', hi⟩ := hd
+  have := h a; rw [hn'] at this
+  obtain ⟨n, hn, e⟩ := sameButMark_some_left.1 this
+  exact ⟨a, n, hn, Node.dependents_of_eraseMark e ▸ hi⟩
+
+theorem dfs_mem_aux : ∀ fuel : Nat,
+    (∀ r buf cur r' buf', dfs fuel r buf cur = some (r', buf') →
+      ∀ i ∈ buf', i ∈ buf ∨ i = cur ∨ IsDep r i) ∧
+    (∀ r buf cs r' buf', dfsList fuel r buf cs = some (r', buf') →
+      ∀ i ∈ buf', i ∈ buf ∨ i ∈ cs ∨ IsDep r i) := by
+  intro fuel
+  induction fuel with
+  | zero => exact ⟨fun _ _ _ _ _ h => by simp [dfs] at h, fun _ _ _ _ _ h => by simp [dfsList] at h⟩
+  | succ fuel ih =>
+    refine ⟨?_, ?_⟩
+    · intro r buf cur r' buf' h i hi
+      rw [dfs] at h
+      split at h
+      · cases h; exact .inl hi
+      · rename_i n hc
+        split at h
+        · cases h
+        · cases h; exact .inl hi
+        · simp only at h
+          split at h
+          · cases h
+          · rename_i r2 buf2 hl
+            cases h
+            have hF := Frame.setMark hc .temp
+            rcases List.mem_append.1 hi with hi | hi
+            · rcases ih.2 _ _ _ _ _ hl i hi with hb | hcs | hd
+              · exact .inl hb
+              · exact .inr (.inr ⟨cur, n, hc, hcs⟩)
+              · exact .inr (.inr (hd.bwd hF.node))
+            · simp only [List.mem_singleton] at hi; exact .inr (.inl hi)
+    · intro r buf cs r' buf' h i hi
+      cases cs with
+      | nil => rw [dfsList] at h; cases h; exact .inl hi
+      | cons c cs =>
+        rw [dfsList] at h
+        split at h
+        · cases h
+        · rename_i r1 buf1 h1
+          rcases ih.2 _ _ _ _ _ h i hi with hb | hcs | hd
+          · rcases ih.1 _ _ _ _ _ h1 i hb with hb | rfl | hd
+            · exact .inl hb
+            · exact .inr (.inl (by simp))
+            · exact .inr (.inr hd)
+          · exact .inr (.inl (by simp [hcs]))
+          · exact .inr (.inr (hd.bwd (dfs_frame h1).2.1))
+
+theorem visitStarts_mem (ss : List Id) {r r' : Root} {buf buf' : List Id}
+    (hx : visitStarts r buf ss = .ok (r', buf')) : ∀ i ∈ buf', i ∈ buf ∨ i ∈ ss ∨ IsDep r i := by
+  induction ss generalizing r buf with
+  | nil =>
+    simp only [visitStarts, Except.ok.injEq, Prod.mk.injEq] at hx
+    obtain ⟨_, rfl⟩ := hx
+    exact fun i hi => .inl hi
+  | cons s ss ih =>
+    simp only [visitStarts] at hx
+    split at hx
+    · cases hx
+    · rename_i r1 buf1 h1
+      intro i hi
+      rcases ih hx i hi with hb | hs | hd
+      · rcases (dfs_mem_aux _).1 _ _ _ _ _ h1 i hb with hb | rfl | hd
+        · exact .inl hb
+        · exact .inr (.inl (by simp))
+        · exact .inr (.inr hd)
+      · exact .inr (.inl (by simp [hs]))
+      · right; right
+        obtain ⟨a, n', hn', hi'⟩ := hd
+        rw [markDependentsDirty_get?, Option.map_eq_some_iff] at hn'
+        obtain ⟨n, hn, rfl⟩ := hn'
+        exact IsDep.bwd (dfs_frame h1).2.1 ⟨a, n, hn, hi'⟩
+
+theorem finish_get? {r : Root} {deps : List Id} {id : Id} {nd : Node} (hd : r.get? id = some nd)
+    (n' : Node) (j : Id) :
+    ((createDependencyLink r deps id).setNode id n').get? j =
+      if j = id then some n' else (r.get? j).map (linked (deps.filter r.alive) id j) := by
+  have hlt : id < (createDependencyLink r deps id).nodes.size := by
+    rw [(createDependencyLink_sameFrame r deps id).1]; exact Root.lt_size_of_get? hd
+  rw [Root.get?_setNode, createDependencyLink_get? deps (Root.alive_iff.2 ⟨nd, hd⟩)]
+  by_cases hj : j = id <;> simp [hj, hlt]
+
+/-- the end of a run, for `XInv`: node `id` gets callback and value; nothing else changes but
+`dependents` lists -/
+theorem XInv.finish {r0 r : Root} {deps : List Id} {id : Id} {nd n' : Node} (h : XInv r)
+    (hb0 : r.batching = r0.batching)
+    (hk : ∀ j, j ≠ id → ∀ n n', r0.get? j = some n → n.value ≠ none → r.get? j = some n' → n'.value ≠ none)
+    (hd : r.get? id = some nd) (e1 : n'.callback ≠ none) (e2 : n'.value ≠ none) :
+    XInv ((createDependencyLink r deps id).setNode id n') ∧
+    XStep r0 ((createDependencyLink r deps id).setNode id n') := by
+  have hget := finish_get? (deps := deps) hd n'
+  obtain ⟨s1, _, _, _, s5, s6, _⟩ := createDependencyLink_sameFrame r deps id
+  obtain ⟨t1, _, _, _, t5, t6, _⟩ := SameFrame.setNode (createDependencyLink r deps id) id n'
+  generalize (createDependencyLink r deps id).setNode id n' = r' at *
+  have back : ∀ j m', r'.get? j = some m' → (j = id ∧ m' = n') ∨
+      (j ≠ id ∧ ∃ m, r.get? j = some m ∧ m' = linked (deps.filter r.alive) id j m) := by
+    intro j m' hm'
+    rw [hget] at hm'
+    split at hm'
+    · rename_i hj; cases hm'; exact .inl ⟨hj, rfl⟩
+    · rename_i hj
+      rw [Option.map_eq_some_iff] at hm'
+      obtain ⟨m, hm, e⟩ := hm'
+      exact .inr ⟨hj, m, hm, e.symm⟩
+  refine ⟨⟨?_, ?_, ?_, ?_⟩, (t6.trans s6).trans hb0, ?_⟩
+  · intro i m' hm'
+    rcases back i m' hm' with ⟨_, rfl⟩ | ⟨hj, m, hm, rfl⟩
+    · exact ⟨fun hc => absurd hc e1, fun hc => absurd hc e1, fun _ => e2⟩
+    · have x := h.node i m hm
+      exact ⟨x.a, fun hc => by simp only [linked, if_neg hj]; exact x.b hc, x.c⟩
+  · intro hb; rw [t5, s5]; exact h.q1 (by rw [← s6, ← t6]; exact hb)
+  · intro q hq m' hm'
+    rw [t5, s5] at hq
+    rcases back q m' hm' with ⟨_, rfl⟩ | ⟨_, m, hm, rfl⟩
+    · exact e2
+    · exact h.q2 q hq m hm
+  · intro q hq; rw [t5, s5] at hq; rw [t1, s1]; exact h.q3 q hq
+  · intro j n n'' hn hv hn''
+    rcases back j n'' hn'' with ⟨_, rfl⟩ | ⟨hj, m, hm, rfl⟩
+    · exact e2
+    · exact hk j hj n m hn hv hm
+
+/-! ### the statements -/
+
+/-- the nodes of a propagation list are allocated and, if alive, not running -/
+def ListOk (r : Root) (l : List Id) : Prop :=
+  ∀ x ∈ l, x < r.nodes.size ∧ ∀ n, r.get? x = some n → n.value ≠ none
+
+theorem ListOk.step {r r' : Root} {l : List Id} (h : ListOk r l) (g : Grows r r') (s : XStep r r') :
+    ListOk r' l := by
+  intro x hx
+  obtain ⟨h1, h2⟩ := h x hx
+  refine ⟨Nat.lt_of_lt_of_le h1 g.size, ?_⟩
+  intro n' hn'
+  cases hr : r.get? x with
+  | none => rw [g.dead x h1 hr] at hn'; cases hn'
+  | some n => exact s.keep x n n' hr (h2 n hr) hn'
+
+/-- one statement per function of the mutual block, at fuel `f`: the function does not fail with
+`unwrapNone`, and it preserves `XInv` -/
+structure SafeAll (f : Nat) : Prop where
+  body : ∀ (P : Id → Prop) r c b, RInvP P r → EnvLt r.nodes.size c.env → XInv r →
+    Safe (execBody f r c b) (fun p => XPost r p.1)
+  inner : ∀ (P : Id → Prop) r c b, RInvP P r → EnvLt r.nodes.size c.env → XInv r →
+    Safe (execInner f r c b) (fun p => XPost r p.1)
+  stmt : ∀ (P : Id → Prop) r c s, RInvP P r → EnvLt r.nodes.size c.env → XInv r →
+    Safe (execStmt f r c s) (fun p => XPost r p.1)
+  closure : ∀ (P : Id → Prop) r cl, RInvP P r → EnvLt r.nodes.size cl.env → XInv r →
+    Safe (runClosure f r cl) (fun p => XPost r p.1)
+  selector : ∀ (P : Id → Prop) r eq cl, RInvP P r → EnvLt r.nodes.size cl.env → XInv r →
+    Safe (createSelector f r eq cl) (fun p => XPost r p.1)
+  update : ∀ (P : Id → Prop) r cur, RInvP P r → XInv r → r.batching = false →
+    (∀ n, r.get? cur = some n → n.value ≠ none ∧ n.dirty = true) →
+    Safe (runNodeUpdate f r cur) (XPost r)
+  loop : ∀ (P : Id → Prop) r l, RInvP P r → XInv r → r.batching = false → ListOk r l →
+    Safe (propagateLoop f r l) (XPost r)
+  nodeUpdates : ∀ (P : Id → Prop) r l, RInvP P r → XInv r → r.batching = false → ListOk r l →
+    Safe (propagateNodeUpdates f r l) (XPost r)
+  updates : ∀ (P : Id → Prop) r s, RInvP P r → XInv r → (∃ n, r.get? s = some n ∧ n.value ≠ none) →
+    Safe (propagateUpdates f r s) (XPost r)
+  dnode : ∀ (P : Id → Prop) r id, RInvP P r → XInv r → Safe (disposeNode f r id) (XPost r)
+  dchildren : ∀ (P : Id → Prop) r id, RInvP P r → XInv r → Safe (disposeChildren f r id) (XPost r)
+  cleanups : ∀ (P : Id → Prop) r cls, RInvP P r → (∀ cl ∈ cls, EnvLt r.nodes.size cl.env) → XInv r →
+    Safe (runCleanups f r cls) (XPost r)
+  dlist : ∀ (P : Id → Prop) r cs, RInvP P r → XInv r → Safe (disposeList f r cs) (XPost r)
+
+theorem fuel_safe : Panic.fuel ≠ Panic.unwrapNone := by intro h; cases h
+
+theorem safeAll_zero : SafeAll 0 := by
+  constructor <;> intros <;> simp only [execBody, execInner, execStmt, runClosure, createSelector,
+    runNodeUpdate, propagateLoop, propagateNodeUpdates, propagateUpdates, disposeNode, disposeChildren,
+    runCleanups, disposeList] <;> exact fuel_safe
+
+/-! ### the easy cases -/
+
+theorem safe_body {f : Nat} (ih : SafeAll f) (P : Id → Prop) (r : Root) (c : Ctx) (b : Body)
+    (hI : RInvP P r) (hE : EnvLt r.nodes.size c.env) (hX : XInv r) :
+    Safe (execBody (f + 1) r c b) (fun p => XPost r p.1) := by
+  cases b with
+  | nil => simp only [execBody]; exact ⟨hX, XStep.refl r⟩
+  | cons s rest =>
+    simp only [execBody]
+    have h1 := ih.stmt P r c s hI hE hX
+    split
+    · rename_i e he; rw [he] at h1; exact h1
+    · rename_i r1 c1 he
+      rw [he] at h1
+      obtain ⟨i1, g1, e1⟩ := (presAll f).stmt P r c s r1 c1 hI hE he
+      refine (ih.body P r1 c1 rest i1 e1 h1.1).mono ?_
+      intro p hp h2
+      exact XPost.trans h1 g1 ((presAll f).body P r1 c1 rest p.1 p.2 i1 e1 hp).2.1 h2
+
+theorem safe_inner {f : Nat} (ih : SafeAll f) (P : Id → Prop) (r : Root) (c : Ctx) (b : Body)
+    (hI : RInvP P r) (hE : EnvLt r.nodes.size c.env) (hX : XInv r) :
+    Safe (execInner (f + 1) r c b) (fun p => XPost r p.1) := by
+  simp only [execInner]
+  have h1 := ih.body P r c b hI hE hX
+  split
+  · rename_i e he; rw [he] at h1; exact h1
+  · rename_i r1 c1 he
+    rw [he] at h1; exact h1
+
+theorem safe_closure {f : Nat} (ih : SafeAll f) (P : Id → Prop) (r : Root) (cl : Closure)
+    (hI : RInvP P r) (hE : EnvLt r.nodes.size cl.env) (hX : XInv r) :
+    Safe (runClosure (f + 1) r cl) (fun p => XPost r p.1) := by
+  simp only [runClosure]
+  have h1 := ih.body P r ⟨cl.env, 0, []⟩ cl.body hI hE hX
+  split
+  · rename_i e he; rw [he] at h1; exact h1
+  · rename_i r1 c1 he
+    rw [he] at h1; exact h1
+
+theorem safe_cleanups {f : Nat} (ih : SafeAll f) (P : Id → Prop) (r : Root) (cls : List Closure)
+    (hI : RInvP P r) (hE : ∀ cl ∈ cls, EnvLt r.nodes.size cl.env) (hX : XInv r) :
+    Safe (runCleanups (f + 1) r cls) (XPost r) := by
+  cases cls with
+  | nil => simp only [runCleanups]; exact ⟨hX, XStep.refl r⟩
+  | cons cl cls =>
+    simp only [runCleanups]
+    have h1 := ih.closure P r cl hI (hE cl (by simp)) hX
+    split
+    · rename_i e he; rw [he] at h1; exact h1
+    · rename_i r1 v obs he
+      rw [he] at h1
+      obtain ⟨i1, g1⟩ := (presAll f).closure P r cl r1 v obs hI (hE cl (by simp)) he
+      obtain ⟨i2, g2⟩ := i1.same (r' := { r1 with trace := r1.trace ++ [.cleanup cl.tag obs] }) rfl rfl
+      obtain ⟨x2, s2, _⟩ := h1.1.same (r' := { r1 with trace := r1.trace ++ [.cleanup cl.tag obs] }) rfl rfl rfl
+      have hE2 : ∀ cl' ∈ cls, EnvLt r1.nodes.size cl'.env := fun cl' hc => (hE cl' (by simp [hc])).mono g1.size
+      refine (ih.cleanups P _ cls i2 hE2 x2).mono ?_
+      intro r' hr' h3
+      have g3 := ((presAll f).cleanups P _ cls r' i2 hE2 hr').2
+      exact XPost.trans (XPost.trans h1 g1 g2 ⟨x2, s2⟩) (g1.trans g2) g3 h3
+
+theorem safe_dlist {f : Nat} (ih : SafeAll f) (P : Id → Prop) (r : Root) (cs : List Id)
+    (hI : RInvP P r) (hX : XInv r) : Safe (disposeList (f + 1) r cs) (XPost r) := by
+  cases cs with
+  | nil => simp only [disposeList]; exact ⟨hX, XStep.refl r⟩
+  | cons c cs =>
+    simp only [disposeList]
+    have h1 := ih.dnode P r c hI hX
+    split
+    · rename_i e he; rw [he] at h1; exact h1
+    · rename_i r1 he
+      rw [he] at h1
+      obtain ⟨⟨i1, g1⟩, _⟩ := (presAll f).dnode P r c r1 hI he
+      refine (ih.dlist P r1 cs i1 h1.1).mono ?_
+      intro r' hr' h2
+      exact XPost.trans h1 g1 ((presAll f).dlist P r1 cs r' i1 hr').1.2 h2
+
+theorem safe_dnode {f : Nat} (ih : SafeAll f) (P : Id → Prop) (r : Root) (id : Id)
+    (hI : RInvP P r) (hX : XInv r) : Safe (disposeNode (f + 1) r id) (XPost r) := by
+  simp only [disposeNode]
+  have h1 := ih.dchildren P r id hI hX
+  split
+  · rename_i e he; rw [he] at h1; exact h1
+  · rename_i r1 he
+    rw [he] at h1
+    obtain ⟨i1, g1⟩ := (presAll f).dchildren P r id r1 hI he
+    obtain ⟨_, g2, _⟩ := i1.removeNode id
+    exact XPost.trans h1 g1 g2 (h1.1.removeNode i1 id)
+
+theorem safe_updates {f : Nat} (ih : SafeAll f) (P : Id → Prop) (r : Root) (s : Id)
+    (hI : RInvP P r) (hX : XInv r) (hs : ∃ n, r.get? s = some n ∧ n.value ≠ none) :
+    Safe (propagateUpdates (f + 1) r s) (XPost r) := by
+  simp only [propagateUpdates]
+  obtain ⟨n, hn, hv⟩ := hs
+  split
+  · rename_i hb
+    refine ⟨⟨hX.node, fun hb' => ?_, ?_, ?_⟩, rfl, fun j m m' hm hmv hm' => ?_⟩
+    · rw [hb] at hb'; cases hb'
+    · intro q hq m hm
+      simp only [List.mem_append, List.mem_singleton] at hq
+      rcases hq with hq | rfl
+      · exact hX.q2 q hq m hm
+      · have hm2 : r.get? q = some m := hm
+        rw [hn] at hm2; cases hm2; exact hv
+    · intro q hq
+      simp only [List.mem_append, List.mem_singleton] at hq
+      rcases hq with hq | rfl
+      · exact hX.q3 q hq
+      · exact Root.lt_size_of_get? hn
+    · have hm2 : r.get? j = some m' := hm'
+      rw [hm] at hm2; cases hm2; exact hmv
+  · rename_i hb
+    refine ih.nodeUpdates P r [s] hI hX (by simpa using hb) ?_
+    intro x hx
+    simp only [List.mem_singleton] at hx
+    subst hx
+    exact ⟨Root.lt_size_of_get? hn, fun m hm => by rw [hn] at hm; cases hm; exact hv⟩
+
+theorem safe_loop {f : Nat} (ih : SafeAll f) (P : Id → Prop) (r : Root) (l : List Id)
+    (hI : RInvP P r) (hX : XInv r) (hb : r.batching = false) (hl : ListOk r l) :
+    Safe (propagateLoop (f + 1) r l) (XPost r) := by
+  cases l with
+  | nil => simp only [propagateLoop]; exact ⟨hX, XStep.refl r⟩
+  | cons node rest =>
+    have hrest : ListOk r rest := fun x hx => hl x (by simp [hx])
+    simp only [propagateLoop]
+    split
+    · exact ih.loop P r rest hI hX hb hrest
+    · rename_i n hn
+      have w := hI.node node n hn
+      have i1 := hI.setNode (n' := { n with mark := .none }) hn rfl rfl rfl rfl ⟨w.run, w.cleanups, w.callback⟩
+      have g1 : Grows r (r.setNode node { n with mark := .none }) := Grows.setNode _ hn fun x => x
+      obtain ⟨x1, s1, v1⟩ := hX.setNode (n' := { n with mark := .none }) hn rfl
+        (fun x => ⟨x.a, x.b, x.c⟩)
+      have hb1 : (r.setNode node { n with mark := .none }).batching = false := v1.batching.trans hb
+      have hrest1 := hrest.step g1 s1
+      split
+      · rename_i hdirty
+        have h2 := ih.update P _ node i1 x1 hb1 (by
+          intro m hm
+          rw [Root.get?_setNode_self hn] at hm; cases hm
+          exact ⟨(hl node (by simp)).2 n hn, hdirty⟩)
+        split
+        · rename_i e he; rw [he] at h2; exact h2
+        · rename_i r2 he
+          rw [he] at h2
+          obtain ⟨i2, g2⟩ := (presAll f).update P _ node r2 i1 he
+          have hb2 : r2.batching = false := h2.2.batching.trans hb1
+          refine (ih.loop P r2 rest i2 h2.1 hb2 (hrest1.step g2 h2.2)).mono ?_
+          intro r' hr' h3
+          have g3 := ((presAll f).loop P r2 rest r' i2 hr').2
+          exact XPost.trans (XPost.trans ⟨x1, s1⟩ g1 g2 h2) (g1.trans g2) g3 h3
+      · refine (ih.loop P _ rest i1 x1 hb1 hrest1).mono ?_
+        intro r' hr' h3
+        have g3 := ((presAll f).loop P _ rest r' i1 hr').2
+        exact XPost.trans ⟨x1, s1⟩ g1 g3 h3
+
+theorem safe_nodeUpdates {f : Nat} (ih : SafeAll f) (P : Id → Prop) (r : Root) (l : List Id)
+    (hI : RInvP P r) (hX : XInv r) (hb : r.batching = false) (hl : ListOk r l) :
+    Safe (propagateNodeUpdates (f + 1) r l) (XPost r) := by
+  simp only [propagateNodeUpdates]
+  split
+  · rename_i e he; exact visitStarts_safe l he
+  · rename_i r1 buf he
+    obtain ⟨i1, g1⟩ := hI.visitStarts l he
+    obtain ⟨x1, s1, v1⟩ := hX.visitStarts l hI he
+    have hmem := visitStarts_mem l he
+    have hl1 : ListOk r1 buf.reverse := by
+      intro x hx
+      rw [List.mem_reverse] at hx
+      rcases hmem x hx with h0 | hs | hd
+      · cases h0
+      · obtain ⟨a, b⟩ := hl x hs
+        refine ⟨by rw [v1.size]; exact a, ?_⟩
+        intro n1 hn1
+        obtain ⟨n, hn, e⟩ := v1.back x n1 hn1
+        rw [e]; exact b n hn
+      · obtain ⟨a, b⟩ := hd.facts hI
+        refine ⟨by rw [v1.size]; exact Root.lt_size_of_get? (Root.alive_iff.1 a).choose_spec, ?_⟩
+        intro n1 hn1
+        obtain ⟨n, hn, e⟩ := v1.back x n1 hn1
+        rw [e]; exact (b n hn).2
+    refine (ih.loop P r1 buf.reverse i1 x1 (v1.batching.trans hb) hl1).mono ?_
+    intro r' hr' h2
+    exact XPost.trans ⟨x1, s1⟩ g1 ((presAll f).loop P r1 buf.reverse r' i1 hr').2 h2
+
+theorem safe_dchildren {f : Nat} (ih : SafeAll f) (P : Id → Prop) (r : Root) (id : Id)
+    (hI : RInvP P r) (hX : XInv r) : Safe (disposeChildren (f + 1) r id) (XPost r) := by
+  simp only [disposeChildren]
+  split
+  · exact ⟨hX, XStep.refl r⟩
+  · rename_i n hn
+    -- detach the children
+    obtain ⟨ia, ga⟩ := hI.detach hn
+    obtain ⟨xa, sa, _⟩ := hX.setNode (n' := { n with cleanups := [], children := [] }) hn rfl
+      (fun x => ⟨x.a, x.b, x.c⟩)
+    obtain ⟨s1, _, _⟩ := SameFrame.setNode r id { n with cleanups := [], children := [] }
+    generalize hra : r.setNode id { n with cleanups := [], children := [] } = ra at *
+    obtain ⟨ib, gb⟩ := ia.same (r' := { ra with tracker := none }) rfl rfl
+    obtain ⟨xb, sb, _⟩ := xa.same (r' := { ra with tracker := none }) rfl rfl rfl
+    have hEc : ∀ cl ∈ n.cleanups, EnvLt ({ ra with tracker := none } : Root).nodes.size cl.env := by
+      intro cl hc
+      have := (hI.node id n hn).cleanups cl hc
+      exact this.mono (by show r.nodes.size ≤ ra.nodes.size; rw [s1]; exact Nat.le_refl _)
+    have h2 := ih.cleanups _ _ n.cleanups ib hEc xb
+    split
+    · rename_i e he; rw [he] at h2; exact h2
+    · rename_i r2 he
+      rw [he] at h2
+      obtain ⟨i2, g2⟩ := (presAll f).cleanups _ _ n.cleanups r2 ib hEc he
+      obtain ⟨ic, gc⟩ := i2.same (r' := { r2 with tracker := ra.tracker }) rfl rfl
+      obtain ⟨xc, sc, _⟩ := h2.1.same (r' := { r2 with tracker := ra.tracker }) rfl rfl rfl
+      have h3 := ih.dlist _ _ n.children ic xc
+      have p2 : XPost r { r2 with tracker := ra.tracker } :=
+        XPost.trans (XPost.trans (XPost.trans ⟨xa, sa⟩ ga gb ⟨xb, sb⟩) (ga.trans gb) g2 h2)
+          ((ga.trans gb).trans g2) gc ⟨xc, sc⟩
+      have gall2 : Grows r { r2 with tracker := ra.tracker } := ((ga.trans gb).trans g2).trans gc
+      split
+      · rename_i e he3; rw [he3] at h3; exact h3
+      · rename_i r3 he3
+        rw [he3] at h3
+        obtain ⟨⟨i3, g3⟩, _⟩ := (presAll f).dlist _ _ n.children r3 ic he3
+        have p3 : XPost r r3 := XPost.trans p2 gall2 g3 h3
+        cases h3id : r3.get? id with
+        | none =>
+          have : r3.modify id (fun n => { n with context := [] }) = r3 := by simp [Root.modify, h3id]
+          rw [this]; exact p3
+        | some n3 =>
+          have : r3.modify id (fun n => { n with context := [] }) = r3.setNode id { n3 with context := [] } := by
+            simp [Root.modify, h3id]
+          rw [this]
+          obtain ⟨x4, s4, _⟩ := p3.1.setNode (n' := { n3 with context := [] }) h3id rfl (fun x => ⟨x.a, x.b, x.c⟩)
+          exact XPost.trans p3 (gall2.trans g3) (Grows.setNode _ h3id fun x => x) ⟨x4, s4⟩
+
+theorem safe_selector {f : Nat} (ih : SafeAll f) (P : Id → Prop) (r : Root) (eq : EqKind) (cl : Closure)
+    (hI : RInvP P r) (hE : EnvLt r.nodes.size cl.env) (hX : XInv r) :
+    Safe (createSelector (f + 1) r eq cl) (fun p => XPost r p.1) := by
+  simp only [createSelector]
+  split
+  · rename_i e he; exact createNode_safe he
+  · rename_i r1 id1 h1
+    obtain ⟨i1, g1, hid, hsz1, hcur1, htr1, n1, hn1, hv1, hd1⟩ := hI.createNode h1
+    obtain ⟨x1, s1⟩ := hX.createNode h1
+    have hid1 : id1 < r1.nodes.size := by rw [hsz1, hid]; exact Nat.lt_succ_self _
+    have ia : RInvP P { r1 with current := some id1, tracker := some [] } :=
+      i1.congr rfl (by intro c hc; simp only [Option.some.injEq] at hc; subst hc; exact hid1)
+    obtain ⟨xa, sa, _⟩ := x1.same (r' := { r1 with current := some id1, tracker := some [] }) rfl rfl rfl
+    have h2 := ih.closure P _ cl ia (hE.mono g1.size) xa
+    split
+    · rename_i e he; rw [he] at h2; exact h2
+    · rename_i r2 v obs he
+      rw [he] at h2
+      obtain ⟨i2, g2⟩ := (presAll f).closure P _ cl r2 v obs ia (hE.mono g1.size) he
+      have g2' : Grows r1 r2 := ⟨g2.size, g2.dead, g2.run⟩
+      generalize hr3 : ({ r2 with tracker := r1.tracker, current := r1.current, trace := r2.trace ++ [Event.run id1 obs v] } : Root) = r3
+      have hn3 : r3.nodes = r2.nodes := by subst hr3; rfl
+      have hq3 : r3.queue = r2.queue := by subst hr3; rfl
+      have hb3 : r3.batching = r2.batching := by subst hr3; rfl
+      obtain ⟨x3, s3, _⟩ := h2.1.same hn3 hq3 hb3
+      have p3 : XPost r r3 :=
+        XPost.trans (XPost.trans (XPost.trans ⟨x1, s1⟩ g1
+          (Grows.of_nodes_eq (r := r1) (r' := { r1 with current := some id1, tracker := some [] }) rfl) ⟨xa, sa⟩)
+          (g1.trans (Grows.of_nodes_eq rfl)) g2 h2)
+          (g1.trans g2') (Grows.of_nodes_eq hn3) ⟨x3, s3⟩
+      cases hd3 : r3.get? id1 with
+      | none =>
+        rw [createDependencyLink_dead _ hd3, hd3]
+        exact p3
+      | some nd =>
+        rw [createDependencyLink_alive hd3]
+        exact XInv.finish x3 p3.2.batching (fun j _ => p3.2.keep j) hd3 (by simp) (by simp)
+
+theorem safe_update {f : Nat} (ih : SafeAll f) (P : Id → Prop) (r : Root) (cur : Id)
+    (hI : RInvP P r) (hX : XInv r) (hb : r.batching = false)
+    (hcur : ∀ n, r.get? cur = some n → n.value ≠ none ∧ n.dirty = true) :
+    Safe (runNodeUpdate (f + 1) r cur) (XPost r) := by
+  simp only [runNodeUpdate]
+  split
+  · intro h; cases h
+  · rename_i n hn
+    obtain ⟨hnv, hnd⟩ := hcur n hn
+    obtain ⟨r2, hu, _⟩ := unlink_spec hI.nd hI.sym hn
+    rw [hu]
+    simp only
+    obtain ⟨i2, g2, hsz2, _, _, hn2⟩ := hI.unlink hn hu
+    obtain ⟨x2, s2, v2⟩ := hX.unlink hI hn hu
+    rw [hn2]
+    simp only
+    have xn2 := x2.node cur _ hn2
+    split
+    · -- callback = none: a signal or scope, which is never dirty
+      rename_i hcb
+      exact absurd (xn2.a hcb hnv) (by simp [unlinked, hnd])
+    · rename_i hval
+      exact absurd hval hnv
+    · rename_i eq cl old hcb hval
+      have w2 := i2.node cur _ hn2
+      have hEcl : EnvLt r2.nodes.size cl.env := w2.callback eq cl hcb
+      have hq2 : r2.queue = [] := x2.q1 (v2.batching.trans hb)
+      -- take value and callback out
+      generalize hr3 : r2.setNode cur _ = r3
+      have i3 : RInvP P r3 := by
+        subst hr3
+        exact i2.setNode hn2 rfl rfl rfl rfl ⟨fun _ => by simp [unlinked], w2.cleanups, by simp⟩
+      have g3 : Grows r2 r3 := by subst hr3; exact Grows.setNode _ hn2 fun _ => rfl
+      have hn3 : ∃ n3, r3.get? cur = some n3 ∧ n3.value = none := by
+        subst hr3
+        exact ⟨_, Root.get?_setNode_self hn2 _, rfl⟩
+      obtain ⟨n3, hn3, hv3⟩ := hn3
+      have hget3 : ∀ j, j ≠ cur → r3.get? j = r2.get? j := by
+        intro j hj; subst hr3; rw [Root.get?_setNode]; simp [hj]
+      have hq3 : r3.queue = [] := by subst hr3; rw [(SameFrame.setNode ..).2.2.2.2.1]; exact hq2
+      have hb3 : r3.batching = false := by
+        subst hr3; rw [(SameFrame.setNode ..).2.2.2.2.2.1]; exact v2.batching.trans hb
+      have x3 : XInv r3 := by
+        refine ⟨?_, fun _ => hq3, by rw [hq3]; simp, by rw [hq3]; simp⟩
+        intro i m hm
+        by_cases hi : i = cur
+        · subst hi
+          subst hr3
+          rw [Root.get?_setNode_self hn2] at hm; cases hm
+          exact ⟨fun _ hv => absurd rfl hv, fun _ => by simp [unlinked], fun hc => absurd rfl hc⟩
+        · rw [hget3 i hi] at hm; exact x2.node i m hm
+      -- nodes other than `cur` keep their values from `r` to `r3`
+      have hk3 : ∀ j, j ≠ cur → ∀ m m', r.get? j = some m → m.value ≠ none → r3.get? j = some m' →
+          m'.value ≠ none := by
+        intro j hj m m' hm hmv hm'
+        rw [hget3 j hj] at hm'
+        exact s2.keep j m m' hm hmv hm'
+      have h4 := ih.dchildren P r3 cur i3 x3
+      split
+      · rename_i e he; rw [he] at h4; exact h4
+      · rename_i r4 he4
+        rw [he4] at h4
+        obtain ⟨i4, g4⟩ := (presAll f).dchildren P r3 cur r4 i3 he4
+        have hcur4 : cur < r4.nodes.size := Nat.lt_of_lt_of_le (Root.lt_size_of_get? hn3) g4.size
+        have ia : RInvP P { r4 with current := some cur, tracker := some [] } :=
+          i4.congr rfl (by intro c hc; simp only [Option.some.injEq] at hc; subst hc; exact hcur4)
+        obtain ⟨xa, sa, _⟩ := h4.1.same (r' := { r4 with current := some cur, tracker := some [] }) rfl rfl rfl
+        have hEa := hEcl.mono (Nat.le_trans g3.size g4.size)
+        have h5 := ih.closure P _ cl ia hEa xa
+        split
+        · rename_i e he; rw [he] at h5; exact h5
+        · rename_i r5 new obs he5
+          rw [he5] at h5
+          obtain ⟨i5, g5⟩ := (presAll f).closure P _ cl r5 new obs ia hEa he5
+          have g5' : Grows r4 r5 := ⟨g5.size, g5.dead, g5.run⟩
+          generalize hr6 : ({ r5 with tracker := r4.tracker, current := r4.current, trace := r5.trace ++ [Event.run cur obs new] } : Root) = r6
+          have hn6 : r6.nodes = r5.nodes := by subst hr6; rfl
+          have hq6 : r6.queue = r5.queue := by subst hr6; rfl
+          have hb6 : r6.batching = r5.batching := by subst hr6; rfl
+          obtain ⟨x6, s6, _⟩ := h5.1.same hn6 hq6 hb6
+          have p36 : XPost r3 r6 :=
+            XPost.trans (XPost.trans (XPost.trans h4 g4
+              (Grows.of_nodes_eq (r := r4) (r' := { r4 with current := some cur, tracker := some [] }) rfl) ⟨xa, sa⟩)
+              (g4.trans (Grows.of_nodes_eq rfl)) g5 h5)
+              (g4.trans g5') (Grows.of_nodes_eq hn6) ⟨x6, s6⟩
+          have g36 : Grows r3 r6 := (g4.trans g5').trans (Grows.of_nodes_eq hn6)
+          have hb6' : r6.batching = r.batching := (p36.2.batching.trans hb3).trans hb.symm
+          have hk6 : ∀ j, j ≠ cur → ∀ m m', r.get? j = some m → m.value ≠ none → r6.get? j = some m' →
+              m'.value ≠ none := by
+            intro j hj m m' hm hmv hm'
+            cases h3j : r3.get? j with
+            | none =>
+              have : j < r3.nodes.size := by
+                rw [show r3.nodes.size = r2.nodes.size by subst hr3; exact (SameFrame.setNode ..).1, hsz2]
+                exact Root.lt_size_of_get? hm
+              rw [g36.dead j this h3j] at hm'; cases hm'
+            | some m3 => exact p36.2.keep j m3 m' h3j (hk3 j hj m m3 hm hmv h3j) hm'
+          cases hd6 : r6.get? cur with
+          | none =>
+            rw [createDependencyLink_dead _ hd6, hd6]
+            refine ⟨x6, hb6', ?_⟩
+            intro j m m' hm hmv hm'
+            by_cases hj : j = cur
+            · subst hj; rw [hd6] at hm'; cases hm'
+            · exact hk6 j hj m m' hm hmv hm'
+          | some nd =>
+            rw [createDependencyLink_alive hd6]
+            simp only
+            have key := fun vv : Int => XInv.finish (r0 := r) (deps := r5.tracker.getD [])
+              (n' := { linked ((r5.tracker.getD []).filter r6.alive) cur cur nd with
+                callback := some (eq, cl), value := some vv, dirty := false })
+              x6 hb6' hk6 hd6 (by simp) (by simp)
+            have i6 : RInvP P r6 := i5.congr hn6 (by
+              intro c hc
+              rw [show r6.current = r4.current by subst hr6; rfl] at hc
+              exact Nat.lt_of_lt_of_le (i4.cur c hc) g5.size)
+            have hnotrun : ∀ m, r.get? cur = some m → m.value ≠ none := by
+              intro m hm; rw [hn] at hm; cases hm; exact hnv
+            have g6 : Grows r r6 := (g2.trans g3).trans g36
+            have hv6 : nd.value = none := g36.run cur n3 nd hn3 hv3 hd6
+            have fin := fun vv : Int => finish_alive (deps := r5.tracker.getD [])
+              (n' := { linked ((r5.tracker.getD []).filter r6.alive) cur cur nd with
+                callback := some (eq, cl), value := some vv, dirty := false })
+              i6 g6 hnotrun hd6 hv6 (createDependencyLink_alive hd6) rfl rfl rfl rfl rfl (by simp)
+              (by
+                intro eq' cl' he
+                simp only [Option.some.injEq, Prod.mk.injEq] at he
+                obtain ⟨_, rfl⟩ := he
+                exact hEcl.mono (Nat.le_trans g3.size g36.size))
+            split
+            · obtain ⟨xf, sf⟩ := key new
+              obtain ⟨a, b, _⟩ := fin new
+              obtain ⟨xm, sm, _⟩ := xf.markDirty a cur
+              exact XPost.trans ⟨xf, sf⟩ b (a.markDirty cur).2 ⟨xm, sm⟩
+            · exact key old
+
+/-! ### `execStmt`, statement by statement -/
+
+theorem track_frame (r : Root) (id : Id) : (track r id).nodes = r.nodes ∧ (track r id).queue = r.queue ∧
+    (track r id).batching = r.batching := by
+  unfold track; split <;> exact ⟨rfl, rfl, rfl⟩
+
+theorem trackAll_frame (c : Ctx) (l : List Nat) {r r' : Root} (hx : trackAll c r l = .ok r') :
+    r'.nodes = r.nodes ∧ r'.queue = r.queue ∧ r'.batching = r.batching := by
+  induction l generalizing r with
+  | nil => simp only [trackAll, Except.ok.injEq] at hx; subst hx; exact ⟨rfl, rfl, rfl⟩
+  | cons x l ih =>
+    simp only [trackAll] at hx
+    split at hx
+    · cases hx
+    · split at hx
+      · cases hx
+      · obtain ⟨a, b, c'⟩ := ih hx
+        obtain ⟨a', b', c''⟩ := track_frame r _
+        exact ⟨a.trans a', b.trans b', c'.trans c''⟩
+
+/-- node-wise transformation that keeps sizes, queue, batch flag, and "has a value" -/
+theorem XInv.pointwise' {r r' : Root} (h : XInv r) (hsz : r'.nodes.size = r.nodes.size)
+    (hq : r'.queue = r.queue) (hb : r'.batching = r.batching)
+    (hback : ∀ j m', r'.get? j = some m' → ∃ m, r.get? j = some m ∧ (m.value ≠ none → m'.value ≠ none) ∧
+      (XNode m → XNode m')) :
+    XInv r' ∧ XStep r r' := by
+  refine ⟨⟨?_, ?_, ?_, ?_⟩, hb, ?_⟩
+  · intro i n' hi
+    obtain ⟨m, hm, _, hx⟩ := hback i n' hi
+    exact hx (h.node i m hm)
+  · intro hb'; rw [hq]; exact h.q1 (hb ▸ hb')
+  · intro q hq' n' hn'
+    obtain ⟨m, hm, e, _⟩ := hback q n' hn'
+    rw [hq] at hq'; exact e (h.q2 q hq' m hm)
+  · intro q hq'; rw [hq] at hq'; rw [hsz]; exact h.q3 q hq'
+  · intro j n n' hn hv hn'
+    obtain ⟨m, hm, e, _⟩ := hback j n' hn'
+    rw [hn] at hm; cases hm; exact e hv
+
+theorem XInv.setSilent {r r' : Root} {id : Id} {v : Int} (h : XInv r) (hx : setSilent r id v = .ok r') :
+    XInv r' ∧ XStep r r' ∧ ∃ n, r'.get? id = some n ∧ n.value ≠ none := by
+  obtain ⟨n, hn, hv, rfl⟩ := setSilent_ok hx
+  obtain ⟨s1, _, _, _, s5, s6, _⟩ := SameFrame.setNode r id { n with value := some v }
+  have hnv : n.value ≠ none := by intro e; rw [e] at hv; cases hv
+  obtain ⟨a, b⟩ := h.pointwise' s1 s5 s6 (by
+    intro j m' hm'
+    rw [Root.get?_setNode] at hm'
+    split at hm'
+    · rename_i hc; cases hm'; rw [hc.1]
+      exact ⟨n, hn, fun _ => by simp, fun x => ⟨fun hc _ => x.a hc hnv, x.b, fun _ => by simp⟩⟩
+    · exact ⟨m', hm', fun x => x, fun x => x⟩)
+  exact ⟨a, b, _, Root.get?_setNode_self hn _, by simp⟩
+
+theorem XInv.provideContext {r r' : Root} {ty : Nat} {v : Int} (h : XInv r)
+    (hx : provideContext r ty v = .ok r') : XInv r' ∧ XStep r r' := by
+  unfold Reactive.provideContext at hx
+  split at hx
+  · cases hx
+  · split at hx
+    · cases hx
+    · rename_i cur _ _ n hn
+      split at hx
+      · cases hx
+      · cases hx
+        obtain ⟨a, b, _⟩ := h.setNode (n' := { n with context := n.context ++ [(ty, v)] }) hn rfl
+          (fun x => ⟨x.a, x.b, x.c⟩)
+        exact ⟨a, b⟩
+
+set_option linter.unusedSectionVars false
+
+section stmts
+variable {f : Nat} (ih : SafeAll f) {P : Id → Prop} {r : Root} {c : Ctx}
+  (hI : RInvP P r) (hE : EnvLt r.nodes.size c.env) (hX : XInv r)
+include ih hI hE hX
+
+theorem safe_read {h : Nat} : Safe (execStmt (f + 1) r c (.read h)) (fun p => XPost r p.1) := by
+  simp only [execStmt]
+  split
+  · rename_i e he; exact lookup_safe he
+  · split
+    · intro h; cases h
+    · split
+      · rename_i e he; exact getUntracked_safe he
+      · obtain ⟨a, b, c'⟩ := track_frame r ‹Handle›.id
+        obtain ⟨x, s, _⟩ := hX.same a b c'
+        exact ⟨x, s⟩
+
+theorem safe_readU {h : Nat} : Safe (execStmt (f + 1) r c (.readU h)) (fun p => XPost r p.1) := by
+  simp only [execStmt]
+  split
+  · rename_i e he; exact lookup_safe he
+  · split
+    · intro h; cases h
+    · split
+      · rename_i e he; exact getUntracked_safe he
+      · exact ⟨hX, XStep.refl r⟩
+
+theorem safe_track {h : Nat} : Safe (execStmt (f + 1) r c (.track h)) (fun p => XPost r p.1) := by
+  simp only [execStmt]
+  split
+  · rename_i e he; exact lookup_safe he
+  · split
+    · intro h; cases h
+    · obtain ⟨a, b, c'⟩ := track_frame r ‹Handle›.id
+      obtain ⟨x, s, _⟩ := hX.same a b c'
+      exact ⟨x, s⟩
+
+theorem safe_ifpos {h : Nat} {t e : Body} :
+    Safe (execStmt (f + 1) r c (.ifpos h t e)) (fun p => XPost r p.1) := by
+  simp only [execStmt]
+  split
+  · rename_i e he; exact lookup_safe he
+  · rename_i hd _
+    split
+    · intro h; cases h
+    · split
+      · rename_i e he; exact getUntracked_safe he
+      · rename_i v _
+        obtain ⟨a, b, c'⟩ := track_frame r hd.id
+        obtain ⟨x, s, _⟩ := hX.same a b c'
+        obtain ⟨i, g⟩ := hI.same a (track_nodes r hd.id).2
+        have hE1 : EnvLt (track r hd.id).nodes.size c.env := hE.mono g.size
+        split
+        · refine (ih.inner P _ { c with acc := mix c.acc v, obs := c.obs ++ [.read hd.id v] } t i hE1 x).mono ?_
+          intro p hp h2
+          exact XPost.trans ⟨x, s⟩ g ((presAll f).inner P _ { c with acc := mix c.acc v, obs := c.obs ++ [.read hd.id v] } t p.1 p.2 i hE1 hp).2.1 h2
+        · refine (ih.inner P _ { c with acc := mix c.acc v, obs := c.obs ++ [.read hd.id v] } e i hE1 x).mono ?_
+          intro p hp h2
+          exact XPost.trans ⟨x, s⟩ g ((presAll f).inner P _ { c with acc := mix c.acc v, obs := c.obs ++ [.read hd.id v] } e p.1 p.2 i hE1 hp).2.1 h2
+
+theorem safe_untracked {b : Body} {prev : Option (List Id)} :
+    Safe (match execInner f { r with tracker := none } c b with
+      | .error e => .error e
+      | .ok (r, c) => (.ok ({ r with tracker := prev }, c) : Except Panic (Root × Ctx))) (fun p => XPost r p.1) := by
+  obtain ⟨i0, g0⟩ := hI.same (r' := { r with tracker := none }) rfl rfl
+  obtain ⟨x0, s0, _⟩ := hX.same (r' := { r with tracker := none }) rfl rfl rfl
+  have h1 := ih.inner P _ c b i0 hE x0
+  split
+  · rename_i e he; rw [he] at h1; exact h1
+  · rename_i r1 c1 he
+    rw [he] at h1
+    obtain ⟨i1, g1, _⟩ := (presAll f).inner P _ c b r1 c1 i0 hE he
+    obtain ⟨x2, s2, _⟩ := h1.1.same (r' := { r1 with tracker := prev }) rfl rfl rfl
+    exact XPost.trans (XPost.trans ⟨x0, s0⟩ g0 g1 h1) (g0.trans g1) (Grows.of_nodes_eq rfl) ⟨x2, s2⟩
+
+theorem safe_untrack {b : Body} : Safe (execStmt (f + 1) r c (.untrack b)) (fun p => XPost r p.1) := by
+  simp only [execStmt]
+  exact safe_untracked ih hI hE hX
+
+theorem safe_component {b : Body} : Safe (execStmt (f + 1) r c (.component b)) (fun p => XPost r p.1) := by
+  simp only [execStmt]
+  exact safe_untracked ih hI hE hX
+
+theorem safe_on {deps : List Nat} {b : Body} :
+    Safe (execStmt (f + 1) r c (.on deps b)) (fun p => XPost r p.1) := by
+  simp only [execStmt]
+  split
+  · rename_i e he; exact trackAll_safe c deps he
+  · rename_i r1 h1
+    obtain ⟨a, b', c'⟩ := trackAll_frame c deps h1
+    obtain ⟨i1, g1⟩ := hI.same a (trackAll_nodes c deps h1).2
+    obtain ⟨x1, s1, _⟩ := hX.same a b' c'
+    refine (safe_untracked ih i1 (hE.mono g1.size) x1).mono ?_
+    intro p hp h2
+    exact XPost.trans ⟨x1, s1⟩ g1 (pres_untracked (presAll f) i1 (hE.mono g1.size) hp).2.1 h2
+
+theorem safe_signal {v : Int} : Safe (execStmt (f + 1) r c (.signal v)) (fun p => XPost r p.1) := by
+  simp only [execStmt]
+  split
+  · rename_i e he; exact createNode_safe he
+  · rename_i r1 id h1
+    exact hX.createNode h1
+
+theorem safe_created {eq : EqKind} {b : Body} {kd : Kind} :
+    Safe (match createSelector f r eq ⟨b, c.env, 0⟩ with
+      | .error e => .error e
+      | .ok (r, id) => (.ok (r, { c with env := c.env ++ [⟨id, kd⟩] }) : Except Panic (Root × Ctx)))
+      (fun p => XPost r p.1) := by
+  have h1 := ih.selector P r eq ⟨b, c.env, 0⟩ hI hE hX
+  split
+  · rename_i e he; rw [he] at h1; exact h1
+  · rename_i r1 id he
+    rw [he] at h1; exact h1
+
+theorem safe_memo {b : Body} : Safe (execStmt (f + 1) r c (.memo b)) (fun p => XPost r p.1) := by
+  simp only [execStmt]
+  exact safe_created ih hI hE hX
+
+theorem safe_selectorStmt {eq : EqKind} {b : Body} :
+    Safe (execStmt (f + 1) r c (.selector eq b)) (fun p => XPost r p.1) := by
+  simp only [execStmt]
+  exact safe_created ih hI hE hX
+
+theorem safe_effect {b : Body} : Safe (execStmt (f + 1) r c (.effect b)) (fun p => XPost r p.1) := by
+  simp only [execStmt]
+  exact safe_created ih hI hE hX
+
+theorem safe_scope {b : Body} : Safe (execStmt (f + 1) r c (.scope b)) (fun p => XPost r p.1) := by
+  simp only [execStmt]
+  split
+  · rename_i e he; exact createNode_safe he
+  · rename_i r1 id h1
+    obtain ⟨i1, g1, hid, hsz1, _⟩ := hI.createNode h1
+    obtain ⟨x1, s1⟩ := hX.createNode h1
+    have hid1 : id < r1.nodes.size := by rw [hsz1, hid]; exact Nat.lt_succ_self _
+    have ia : RInvP P { r1 with current := some id } :=
+      i1.congr rfl (by intro x hc; simp only [Option.some.injEq] at hc; subst hc; exact hid1)
+    obtain ⟨xa, sa, _⟩ := x1.same (r' := { r1 with current := some id }) rfl rfl rfl
+    have h2 := ih.inner P _ c b ia (hE.mono g1.size) xa
+    split
+    · rename_i e he; rw [he] at h2; exact h2
+    · rename_i r2 c2 he
+      rw [he] at h2
+      obtain ⟨i2, g2, _⟩ := (presAll f).inner P _ c b r2 c2 ia (hE.mono g1.size) he
+      obtain ⟨x3, s3, _⟩ := h2.1.same (r' := { r2 with current := r1.current }) rfl rfl rfl
+      have ga : Grows r1 { r1 with current := some id } := Grows.of_nodes_eq rfl
+      exact XPost.trans (XPost.trans (XPost.trans ⟨x1, s1⟩ g1 ga ⟨xa, sa⟩) (g1.trans ga) g2 h2)
+        ((g1.trans ga).trans g2) (Grows.of_nodes_eq rfl) ⟨x3, s3⟩
+
+theorem safe_set {h : Nat} {e : Ex} : Safe (execStmt (f + 1) r c (.set h e)) (fun p => XPost r p.1) := by
+  simp only [execStmt]
+  split
+  · rename_i e he; exact lookup_safe he
+  · split
+    · intro h; cases h
+    · split
+      · rename_i e he; exact setSilent_safe he
+      · rename_i r1 h1
+        obtain ⟨i1, g1⟩ := hI.setSilent h1
+        obtain ⟨x1, s1, hs⟩ := hX.setSilent h1
+        have h2 := ih.updates P r1 _ i1 x1 hs
+        split
+        · rename_i e he; rw [he] at h2; exact h2
+        · rename_i r2 he
+          rw [he] at h2
+          exact XPost.trans ⟨x1, s1⟩ g1 ((presAll f).updates P r1 _ r2 i1 he).2 h2
+
+theorem safe_setSilentStmt {h : Nat} {e : Ex} :
+    Safe (execStmt (f + 1) r c (.setSilent h e)) (fun p => XPost r p.1) := by
+  simp only [execStmt]
+  split
+  · rename_i e he; exact lookup_safe he
+  · split
+    · intro h; cases h
+    · split
+      · rename_i e he; exact setSilent_safe he
+      · rename_i r1 h1
+        obtain ⟨x1, s1, _⟩ := hX.setSilent h1
+        exact ⟨x1, s1⟩
+
+theorem safe_cleanupStmt {b : Body} : Safe (execStmt (f + 1) r c (.cleanup b)) (fun p => XPost r p.1) := by
+  simp only [execStmt]
+  split
+  · exact ⟨hX, XStep.refl r⟩
+  · rename_i cur _
+    split
+    · intro h; cases h
+    · rename_i n hn
+      obtain ⟨x1, s1, _⟩ := hX.setNode (n' := { n with cleanups := n.cleanups ++ [⟨b, c.env, r.nextTag⟩] }) hn rfl
+        (fun x => ⟨x.a, x.b, x.c⟩)
+      obtain ⟨x2, s2, _⟩ := x1.same
+        (r' := { (r.setNode cur { n with cleanups := n.cleanups ++ [⟨b, c.env, r.nextTag⟩] }) with nextTag := r.nextTag + 1 })
+        rfl rfl rfl
+      exact XPost.trans ⟨x1, s1⟩ (Grows.setNode _ hn fun x => x) (Grows.of_nodes_eq rfl) ⟨x2, s2⟩
+
+theorem safe_dispose {h : Nat} : Safe (execStmt (f + 1) r c (.dispose h)) (fun p => XPost r p.1) := by
+  simp only [execStmt]
+  split
+  · rename_i e he; exact lookup_safe he
+  · rename_i hd _
+    have h1 := ih.dnode P r hd.id hI hX
+    split
+    · rename_i e he; rw [he] at h1; exact h1
+    · rename_i r1 he; rw [he] at h1; exact h1
+
+theorem safe_disposeCur : Safe (execStmt (f + 1) r c .disposeCur) (fun p => XPost r p.1) := by
+  simp only [execStmt]
+  split
+  · exact ⟨hX, XStep.refl r⟩
+  · rename_i cur _
+    have h1 := ih.dnode P r cur hI hX
+    split
+    · rename_i e he; rw [he] at h1; exact h1
+    · rename_i r1 he; rw [he] at h1; exact h1
+
+theorem safe_batch {b : Body} : Safe (execStmt (f + 1) r c (.batch b)) (fun p => XPost r p.1) := by
+  simp only [execStmt]
+  obtain ⟨i0, g0⟩ := hI.same (r' := { r with batching := true }) rfl rfl
+  have x0 : XInv { r with batching := true } := ⟨hX.node, fun hb => (by cases hb), hX.q2, hX.q3⟩
+  have h1 := ih.inner P _ c b i0 hE x0
+  split
+  · rename_i e he; rw [he] at h1; exact h1
+  · rename_i r1 c1 he
+    rw [he] at h1
+    obtain ⟨i1, g1, _⟩ := (presAll f).inner P _ c b r1 c1 i0 hE he
+    have g1' : Grows r r1 := ⟨g1.size, g1.dead, g1.run⟩
+    have k1 : Keep r r1 := h1.2.keep
+    have hb1 : r1.batching = true := h1.2.batching
+    split
+    · rename_i hnested
+      exact ⟨h1.1, hb1.trans hnested.symm, k1⟩
+    · rename_i hnested
+      obtain ⟨i1', g1''⟩ := i1.same (r' := { r1 with batching := false, queue := [] }) rfl rfl
+      have x1' : XInv { r1 with batching := false, queue := [] } :=
+        ⟨h1.1.node, fun _ => rfl, fun q hq => (by cases hq), fun q hq => (by cases hq)⟩
+      have hl : ListOk { r1 with batching := false, queue := [] } r1.queue :=
+        fun x hx => ⟨h1.1.q3 x hx, h1.1.q2 x hx⟩
+      have h2 := ih.nodeUpdates P _ r1.queue i1' x1' rfl hl
+      split
+      · rename_i e he2; rw [he2] at h2; exact h2
+      · rename_i r2 he2
+        rw [he2] at h2
+        have g2 := ((presAll f).nodeUpdates P _ r1.queue r2 i1' he2).2
+        have g2' : Grows r1 r2 := ⟨g2.size, g2.dead, g2.run⟩
+        have k2 : Keep r1 r2 := h2.2.keep
+        refine ⟨h2.1, ?_, k1.trans g1' g2' k2⟩
+        have : r.batching = false := by simpa using hnested
+        rw [this]; exact h2.2.batching
+
+theorem safe_provide {ty : Nat} {e : Ex} :
+    Safe (execStmt (f + 1) r c (.provide ty e)) (fun p => XPost r p.1) := by
+  simp only [execStmt]
+  split
+  · rename_i e he; exact provideContext_safe he
+  · rename_i r1 h1
+    exact hX.provideContext h1
+
+theorem safe_use {ty : Nat} : Safe (execStmt (f + 1) r c (.use ty)) (fun p => XPost r p.1) := by
+  simp only [execStmt]
+  split
+  · rename_i e he; exact tryUseContext_safe he
+  · exact ⟨hX, XStep.refl r⟩
+
+theorem safe_runIn {h : Nat} {b : Body} : Safe (execStmt (f + 1) r c (.runIn h b)) (fun p => XPost r p.1) := by
+  simp only [execStmt]
+  split
+  · rename_i e he; exact lookup_safe he
+  · rename_i hd hl
+    have ia : RInvP P { r with current := some hd.id } :=
+      hI.congr rfl (by intro x hc; simp only [Option.some.injEq] at hc; subst hc; exact hE hd (lookup_ok hl).2)
+    obtain ⟨xa, sa, _⟩ := hX.same (r' := { r with current := some hd.id }) rfl rfl rfl
+    have h1 := ih.inner P _ c b ia hE xa
+    split
+    · rename_i e he; rw [he] at h1; exact h1
+    · rename_i r1 c1 he
+      rw [he] at h1
+      obtain ⟨i1, g1, _⟩ := (presAll f).inner P _ c b r1 c1 ia hE he
+      obtain ⟨x2, s2, _⟩ := h1.1.same (r' := { r1 with current := r.current }) rfl rfl rfl
+      have ga : Grows r { r with current := some hd.id } := Grows.of_nodes_eq rfl
+      exact XPost.trans (XPost.trans ⟨xa, sa⟩ ga g1 h1) (ga.trans g1) (Grows.of_nodes_eq rfl) ⟨x2, s2⟩
+
+end stmts
+
+theorem safe_stmt {f : Nat} (ih : SafeAll f) (P : Id → Prop) (r : Root) (c : Ctx) (s : Stmt)
+    (hI : RInvP P r) (hE : EnvLt r.nodes.size c.env) (hX : XInv r) :
+    Safe (execStmt (f + 1) r c s) (fun p => XPost r p.1) := by
+  cases s with
+  | read h => exact safe_read ih hI hE hX
+  | readU h => exact safe_readU ih hI hE hX
+  | track h => exact safe_track ih hI hE hX
+  | ifpos h t e => exact safe_ifpos ih hI hE hX
+  | untrack b => exact safe_untrack ih hI hE hX
+  | component b => exact safe_component ih hI hE hX
+  | on deps b => exact safe_on ih hI hE hX
+  | signal v => exact safe_signal ih hI hE hX
+  | memo b => exact safe_memo ih hI hE hX
+  | selector eq b => exact safe_selectorStmt ih hI hE hX
+  | effect b => exact safe_effect ih hI hE hX
+  | scope b => exact safe_scope ih hI hE hX
+  | set h e => exact safe_set ih hI hE hX
+  | setSilent h e => exact safe_setSilentStmt ih hI hE hX
+  | cleanup b => exact safe_cleanupStmt ih hI hE hX
+  | dispose h => exact safe_dispose ih hI hE hX
+  | disposeCur => exact safe_disposeCur ih hI hE hX
+  | batch b => exact safe_batch ih hI hE hX
+  | provide ty e => exact safe_provide ih hI hE hX
+  | use ty => exact safe_use ih hI hE hX
+  | runIn h b => exact safe_runIn ih hI hE hX
+
+theorem safeAll : ∀ f, SafeAll f
+  | 0 => safeAll_zero
+  | f + 1 =>
+    have ih := safeAll f
+    { body := safe_body ih, inner := safe_inner ih, stmt := safe_stmt ih, closure := safe_closure ih,
+      selector := safe_selector ih, update := safe_update ih, loop := safe_loop ih,
+      nodeUpdates := safe_nodeUpdates ih, updates := safe_updates ih, dnode := safe_dnode ih,
+      dchildren := safe_dchildren ih, cleanups := safe_cleanups ih, dlist := safe_dlist ih }
+
+/-! ### the initial state, top-level programs -/
+
+theorem xinv_init : XInv Root.init := by
+  refine ⟨?_, fun _ => rfl, fun q hq => (by cases hq), fun q hq => (by cases hq)⟩
+  intro i n hn
+  obtain ⟨_, rfl⟩ := init_get? hn
+  exact ⟨fun _ _ => rfl, fun _ => rfl, fun hc => absurd rfl hc⟩
+
+theorem runOps_safe (fuel : Nat) : ∀ (ops : List Stmt) (r : Root) (env : List Handle),
+    RInv r → EnvLt r.nodes.size env → XInv r → Safe (runOps fuel ops r env) (fun p => XInv p.1)
+  | [], r, env, _, _, hX => by simp only [runOps]; exact hX
+  | s :: rest, r, env, hI, hE, hX => by
+    simp only [runOps]
+    have h1 := (safeAll fuel).stmt _ r ⟨env, 0, []⟩ s hI hE hX
+    split
+    · rename_i e he; rw [he] at h1; exact h1
+    · rename_i r1 c1 he
+      rw [he] at h1
+      obtain ⟨i1, _, e1⟩ := (presAll fuel).stmt _ r ⟨env, 0, []⟩ s r1 c1 hI hE he
+      exact runOps_safe fuel rest r1 c1.env i1 e1 h1.1
 
 end SycVerif.Reactive
